@@ -4,6 +4,7 @@ import (
 	"encoding/json"
 	"fmt"
 	"net/http"
+	"net/http/httptest"
 	"strings"
 
 	"github.com/issue9/mux/v9"
@@ -160,6 +161,28 @@ func c05GroupJob(raw json.RawMessage) (any, error) {
 				out.Viols = append(out.Viols, explore.Violation{Property: "C05", Clause: "C05.matcher-no-panic", Class: "panic:" + mnames[mi], Probe: fmt.Sprintf("%s.Match(Host=%q)", mnames[mi], h), Observed: fmt.Sprintf("panic: %v", v), Expected: "no panic", Replay: explore.ItemReplay("c05/group", it)})
 			}
 			ctx.Destroy()
+			out.Evals++
+		}
+	}
+	// a header key that is present with no value at all (an upstream filter emptied the list in place): legal for
+	// http.Header, to the matchers and to the group it is a request without that header
+	for _, key := range []string{"Accept", "Host", "Origin", "Content-Type"} {
+		for vi, vals := range [][]string{{}, nil, {""}, {"", ""}} {
+			for mi, m := range matchers[:5] {
+				ctx := types.NewContext()
+				req := hv.NewRequest(hv.Req{Method: "GET", Path: "/v1/x", Host: "a.com"}, &hv.Obs{})
+				req.Header[key] = vals
+				if v, bad := Guard(func() { m.Match(req, ctx) }); bad {
+					out.Viols = append(out.Viols, explore.Violation{Property: "C05", Clause: "C05.matcher-no-panic", Class: "panic:" + mnames[mi] + ":empty-header-list", Probe: fmt.Sprintf("%s.Match(GET /v1/x, Header[%q]=%#v)", mnames[mi], key, vals), Observed: fmt.Sprintf("panic: %v", v), Expected: "no panic", Replay: explore.ItemReplay("c05/group", it)})
+				}
+				ctx.Destroy()
+				out.Evals++
+			}
+			req := hv.NewRequest(hv.Req{Method: "GET", Path: "/x", Host: "a.com"}, &hv.Obs{})
+			req.Header[key] = vals
+			if v, bad := Guard(func() { g.ServeHTTP(httptest.NewRecorder(), req) }); bad {
+				out.Viols = append(out.Viols, explore.Violation{Property: "C05", Clause: "C05.group-no-panic", Class: "panic:" + mnames[k] + ":empty-header-list", Config: "group with one router behind matcher " + mnames[k], Probe: fmt.Sprintf("GET /x, Header[%q]=%#v (variant %d)", key, vals, vi), Observed: fmt.Sprintf("panic: %v", v), Expected: "no panic", Replay: explore.ItemReplay("c05/group", it)})
+			}
 			out.Evals++
 		}
 	}
@@ -358,7 +381,7 @@ func init() {
 		rc.Assume = append(rc.Assume,
 			"(c) patterns whose segments are 32765..32770 and 65540 bytes long (ASCII and 3-byte characters, so that the limit is also crossed in characters but not in bytes and vice versa) after literal text and after each kind of parameter, through the same trial as every enumerated pattern",
 			"(a) every state of the C03 history search up to the depth bound is probed with 6 method strings (incl. empty and unknown) x hostile paths: '', '*', all strings over {/ a { } : * 0x00 0x80 0xff} up to length 2-3, witnesses and their edit-1 neighbours, 32767/32768/65536-byte paths",
-			"(a') groups with one router behind each matcher kind (Hosts, path version, header version, And, Or, nil) x hostile Host strings (all strings over {a . : [ ] * { 0xff} up to length 3 and a fixed list) x paths x Accept values; matchers also called directly",
+			"(a') groups with one router behind each matcher kind (Hosts, path version, header version, And, Or, nil) x hostile Host strings (all strings over {a . : [ ] * { 0xff} up to length 3 and a fixed list) x paths x Accept values; matchers also called directly; requests whose header map holds Accept / Host / Origin / Content-Type with an empty or nil value list",
 			"(a'') every CORS configuration of C11 x every request of its product extended with malformed Access-Control-Request-Headers values: no panic",
 			"(b) every pattern string over {/ a b { } : - \\ d + ( *} up to the length bound (quick: length 6 only for strings starting with '/{' or '{', length 5 otherwise), and every rule text over {a b ( ) | \\ d + * [ ] ? ^ $} up to the rule bound wrapped as /{a:R}, /{a:R}/b, /{-a:R}b, /a/{a:R}, through CheckSyntax, mux.URL, Router.URL (strict and not), Handle on a fresh and on a populated router, then served",
 			"a harness handler never panics on its own; a nil handler given to the CallFunc counts as a router fault")
